@@ -84,7 +84,13 @@ def verify(sid):
         shutil.rmtree(wt, ignore_errors=True)
 
 
-def run(sid, tier="quick", props=None):
+def _term(signum, frame):
+    raise SystemExit(f"terminated by signal {signum}")
+
+
+def run(sid, tier="quick", props=None, check_timeout=1800):
+    import signal
+    signal.signal(signal.SIGTERM, _term)      # so that `finally` below still restores /repo
     d = os.path.join(SEEDED, sid)
     meta = json.load(open(os.path.join(d, "meta.json")))
     props = props or [meta["property"]]
@@ -100,7 +106,19 @@ def run(sid, tier="quick", props=None):
         for prop in props:
             env = dict(os.environ, EGMC_EVIDENCE_DIR=os.path.join(scratch, "ev"),
                        EGMC_REPLAY_DIR=os.path.join(scratch, "rp"))
-            r = sh([os.path.join(ROOT, "check"), prop, tier], env=env)
+            try:
+                r = subprocess.run([os.path.join(ROOT, "check"), prop, tier], env=env, capture_output=True,
+                                   text=True, timeout=check_timeout, start_new_session=True)
+            except subprocess.TimeoutExpired as e:
+                # kill the whole process group of the check (its worker pool)
+                import signal as _s
+                try:
+                    os.killpg(os.getpgid(e.cmd and 0 or 0), _s.SIGKILL)
+                except Exception:  # noqa: BLE001
+                    pass
+                sh(["pkill", "-KILL", "-f", "egmc[.]main " + prop + " " + tier])
+                out[prop] = {"verdict": f"timeout>{check_timeout}s", "fingerprints": [], "harness": []}
+                continue
             fps = [l.strip()[len("fingerprint: "):] for l in r.stdout.splitlines() if l.strip().startswith("fingerprint:")]
             verdict = {0: "missed", 1: "DETECTED", 2: "harness-error"}.get(r.returncode, f"rc={r.returncode}")
             out[prop] = {"verdict": verdict, "fingerprints": fps[:3],
